@@ -1,7 +1,8 @@
 CONSTANTS
   KeySet = {"p256", "p384", "rsa2048", "ed25519"}
   StorageSet = {"direct", "lru1", "lruBig", "noop"}
+  Big = TRUE
 INIT Init
 NEXT Next
-INVARIANTS LawAdmissible LawDetermined LawFinalIssuer LawCrossKept Export
+INVARIANTS LawAdmissible LawDetermined LawFinalIssuer LawCrossKept LawFieldsVerbatim Export
 CHECK_DEADLOCK FALSE
